@@ -5,10 +5,12 @@ package e5
 
 import (
 	"bytes"
+	"encoding/json"
 	"errors"
 	"fmt"
 	"sort"
 	"strconv"
+	"time"
 	"unicode/utf8"
 
 	"github.com/confluentinc/confluent-kafka-go/kafka"
@@ -417,6 +419,28 @@ func topicCode(name *string) int64 {
 	return c
 }
 
+// skewRecord moves the `updated` stamp of a record written by the real sender by d seconds: the sender's host clock
+// is off by d.  Everything else stays byte-identical.
+func skewRecord(value []byte, d int64) []byte {
+	if d == 0 {
+		return value
+	}
+	var m map[string]json.RawMessage
+	if json.Unmarshal(value, &m) != nil {
+		return value
+	}
+	raw, ok := m["updated"]
+	var t time.Time
+	if !ok || json.Unmarshal(raw, &t) != nil {
+		return value
+	}
+	nb, err := json.Marshal(t.Add(time.Duration(d) * time.Second))
+	if err != nil {
+		return value
+	}
+	return bytes.Replace(value, append([]byte(`"updated":`), raw...), append([]byte(`"updated":`), nb...), 1)
+}
+
 func runSend(in sx.Tree) sx.Tree {
 	var prods []*producer
 	var senders []message.Sender
@@ -464,9 +488,12 @@ func runSend(in sx.Tree) sx.Tree {
 			err = message.GetSender().Send(message.Message{MessageType: typ, Key: key, Payload: payload})
 		}
 		recs := []sx.Tree{}
-		for _, p := range prods {
+		for pi, p := range prods {
 			for len(p.ch) > 0 {
 				km := <-p.ch
+				if in.Len() >= 4 && pi < in.At(3).Len() {
+					km.Value = skewRecord(km.Value, in.At(3).At(pi).Int())
+				}
 				recs = append(recs, sx.T(sx.L(topicCode(km.TopicPartition.Topic)), sx.L(int64(km.TopicPartition.Partition)),
 					sx.Bytes(km.Key), decodedTree(km.Value)))
 				log = append(log, rec{km.Key, km.Value})
